@@ -6,7 +6,7 @@
   token strings of the macros in include/Cello.h (Exn.v holds the shapes the machine encodes;
   ExnProofs.exn_macro_shapes compares them by reflexivity)
 * exn_src_try / exn_src_try_end / exn_src_try_fail / exn_src_throw / exn_src_catch /
-  exn_src_buffer : string — normalised token strings of the bodies of the six C functions the
+  exn_src_buffer / exn_src_len / exn_src_error : string — normalised token strings of the bodies of the eight C functions the
   machine models one Gallina function each (the `e->active = false;` statements in front of
   `return e->obj;` are taken out of exn_src_catch: they are the parameter above).
 A macro/function that is not found emits None (= broken obligation)."""
@@ -47,7 +47,8 @@ def generate(repo, emit, src, func_body):
                      ('exn_src_throw', r'var\s+exception_throw\s*\(\s*var\s+obj\s*,\s*const\s+char\s*\*\s*fmt\s*,\s*var\s+args\s*\)\s*\{'),
                      ('exn_src_catch', r'var\s+exception_catch\s*\(\s*var\s+args\s*\)\s*\{'),
                      ('exn_src_buffer', r'static\s+jmp_buf\s*\*\s*Exception_Buffer\s*\(\s*struct\s+Exception\s*\*\s*e\s*\)\s*\{'),
-                     ('exn_src_len', r'static\s+size_t\s+Exception_Len\s*\(\s*var\s+self\s*\)\s*\{')):
+                     ('exn_src_len', r'static\s+size_t\s+Exception_Len\s*\(\s*var\s+self\s*\)\s*\{'),
+                     ('exn_src_error', r'static\s+void\s+Exception_Error\s*\(\s*struct\s+Exception\s*\*\s*e\s*\)\s*\{')):
         b = func_body(c, hdr)
         bodies[coq] = None if b is None else norm(b)
 
